@@ -428,7 +428,18 @@ func (s *state) checkReads(t *rapid.T, step string) {
 					s.labels["removed-object-read-from-degraded-holder(not-asserted)"] = true
 				} else if g != "" {
 					fp := ""
-					if g == "mark" && len(holders) > 0 {
+					// the recorded class, narrowly: force-removed with a DEFAULT mark (no
+					// tombstone), blob not collected yet, holder has its metabase, some
+					// OTHER shard runs without metabase, read through Get / GetBytes
+					otherNoMeta := false
+					for k := range s.e.Sh {
+						isHolder := false
+						for _, h := range holders {
+							isHolder = isHolder || h == k
+						}
+						otherNoMeta = otherNoMeta || (!isHolder && s.e.Mode(k).NoMetabase())
+					}
+					if g == "mark" && len(holders) > 0 && otherNoMeta && r.name != "Head" {
 						fp = fpMarked
 					}
 					if fp != "" && s.known(fp) {
